@@ -1,5 +1,6 @@
 import TR.Lemmas.Coalesce
 import TR.Lemmas.CoalesceHandle
+import TR.Lemmas.CoalesceHerd
 /-!
 # C11 — coalesce runs one inner call per key and shares its result with all waiters
 
@@ -375,6 +376,51 @@ theorem dropOps_spec (s : State) (hooks : List (Nat × (Nat × Step))) (c : Nat)
     · exact Or.inl rfl
   · exact Or.inl rfl
 
+/-! ## requests whose `call()`s overlap on different threads
+
+One `Service::call` is one step of the model — the look-up of the key and its registration are a single critical
+section under the map's lock —, so N `call()`s for one key that overlap in real time take effect in *some* order.
+The harness searches real schedules for an execution that is not of that kind (`manual herd`, a search and not a
+proof; seeded/C11-w3m2 splits the critical section in two); the theorem says what every execution that IS of that
+kind looks like, whatever the order. -/
+
+/-- **Simultaneous arrivals elect one leader.** The key is free; the requests `c :: cs` (distinct, new; any
+scripts) arrive in this — arbitrary — order and nothing else happens in between. Then exactly one event has
+occurred: the inner call of the first one, `c`; `c` is the live leader, the key is registered to it, and every
+other request is a live waiter of `c`: it made no inner call and (`waiter_gets_leader_result`,
+`completed_leader_waiter_resolves`) will receive `c`'s result. -/
+theorem simultaneous_arrivals_one_leader (ops : List Op) (key c : Nat) (sc : Step) (cs : List (Nat × Step))
+    (hs : (run ops).svcGone = false) (hr : reg (run ops) key = none)
+    (hc : lookup (run ops).role c = none) (hcs : ∀ p ∈ cs, lookup (run ops).role p.1 = none)
+    (hnd : (c :: cs.map Prod.fst).Nodup) :
+    let s' := run (ops ++ arrivals key ((c, sc) :: cs))
+    s'.log = (run ops).log ++ [.innerCall c key (run ops).serial] ∧
+    LiveLeader s' c key (run ops).serial ∧ reg s' key = some c ∧
+    ∀ p ∈ cs, LiveWaiter s' p.1 key c := by
+  intro s'
+  have inv := inv_reachable ops
+  have hnd' : c ∉ cs.map Prod.fst ∧ (cs.map Prod.fst).Nodup := by simpa using hnd
+  have e1 : stepS (run ops) (.arrive c key sc false) = lead (run ops) c key sc := arrive_free sc hs hc hr
+  have hs' : s' = (arrivals key cs).foldl stepS (lead (run ops) c key sc) := by
+    show run (ops ++ arrivals key ((c, sc) :: cs)) = _
+    rw [run_append]
+    show List.foldl stepS (stepS (run ops) (.arrive c key sc false)) (arrivals key cs) = _
+    rw [e1]
+  have hreg1 : reg (lead (run ops) c key sc) key = some c := by
+    show regOf ((key, some c) :: (run ops).inflight) key = some c
+    rw [regOf_cons]; simp
+  have hf1 : ∀ p ∈ cs, lookup (lead (run ops) c key sc).role p.1 = none := by
+    intro p hp
+    have hne : c ≠ p.1 := fun h => hnd'.1 (by rw [h]; exact List.mem_map_of_mem hp)
+    show lookup ((c, _) :: (run ops).role) p.1 = none
+    rw [lookup_cons_ne _ _ hne]; exact hcs p hp
+  obtain ⟨h1, _, h3, _, h5, h6, h7⟩ := arrivals_join key c cs (lead (run ops) c key sc) hs hreg1 hf1 hnd'.2
+  rw [hs']
+  refine ⟨by rw [h1]; rfl, ⟨h7 c _ (lookup_cons_self ..), ?_⟩, h5, ?_⟩
+  · rw [h3]; exact fresh_not_gone inv hc
+  · intro p hp
+    exact ⟨h6 p hp, by rw [h3]; exact fresh_not_gone inv (hcs p hp)⟩
+
 /-! ## non-vacuity: concrete histories that meet the hypotheses -/
 
 /-- two requests for key 7 coalesce (one inner call, serial 0, both get `ok:0`), key 8 runs
@@ -443,5 +489,14 @@ example :
       = [.innerCall 1 7 0, .innerDrop 1 7 0, .result 2 .cancelled, .result 3 .cancelled, .innerCall 4 7 1] := by
   intro ops
   exact ⟨rfl, by decide⟩
+
+/-- a herd of 5 requests over 2 keys (threads 0,2,4 ask for key 1, threads 1,3 for key 2): two inner calls,
+all five receive the result of their key's call — also when the calls fail —; the order of the arrivals does
+not change the tallies; the totals of 10 rounds of it, 5 of them failing -/
+example :
+    herdTally 5 2 .ok = (2, 5) ∧ herdTally 5 2 (.err 1) = (2, 5) ∧ herdTally 8 1 .ok = (1, 8) ∧
+    (run (arrivals 7 [(3, ⟨0, .ok⟩), (1, ⟨0, .ok⟩), (2, ⟨0, .ok⟩)] ++ [.poll 1, .poll 3, .poll 1, .poll 2])).log
+      = [.innerCall 3 7 0, .innerDone 3 7 0 .ok, .result 3 (.ok 0), .result 1 (.ok 0), .result 2 (.ok 0)] ∧
+    herdTotals 5 2 10 5 = (20, 50) := by decide
 
 end TR.Props.C11
